@@ -241,14 +241,16 @@ pub fn c09() -> SchedCampaign {
     }
 }
 
-pub fn by_name(prop: &str) -> Option<SchedCampaign> {
+pub fn by_name(prop: &str) -> Option<Box<dyn crate::campaign::Campaign>> {
     match prop {
-        "C01" => Some(c01()),
-        "C02" => Some(c02()),
-        "C03" => Some(c03()),
-        "C07" => Some(c07()),
-        "C08" => Some(c08()),
-        "C09" => Some(c09()),
+        "C01" => Some(Box::new(c01())),
+        "C02" => Some(Box::new(c02())),
+        "C03" => Some(Box::new(c03())),
+        "C04" => Some(Box::new(crate::faults::C04)),
+        "C05" => Some(Box::new(crate::faults::C05)),
+        "C07" => Some(Box::new(c07())),
+        "C08" => Some(Box::new(c08())),
+        "C09" => Some(Box::new(c09())),
         _ => None,
     }
 }
